@@ -1018,7 +1018,7 @@ def gen_script(rng, impl, nops, focus, scripted=None):
     # rounds aimed at the boundaries of the addressable space (C10) and at close/reopen of a full file (C11): most scripts
     # run one early - while the bitmap is short (the model is linear in its length) - and may run more later
     w_edge, w_full = ((3, 1) if focus == "C10" else (1, 3))
-    if mode == "mixed" and rng.chance(1, 2) and not os.environ.get("FSM_NOROUNDS"):
+    if mode == "mixed" and rng.chance(2, 5):
         first = rng.weighted([("edge", w_edge), ("full", w_full)])
         for _ in range(rng.below(6)):
             if not do_alloc():
@@ -1036,7 +1036,7 @@ def gen_script(rng, impl, nops, focus, scripted=None):
                            ("reopen", 1 if focus == "C10" else 2), ("sync", 1), ("clear", 1 if rng.chance(1, 4) else 0),
                            ("freeall", 1 if rng.chance(1, 3) else 0),
                            ("solidround", 2 if mode == "solid" else 0), ("layout", 2 if mode == "aligned" else 0),
-                           ("edgeround", 1 if rng.chance(w_edge, 12) and not os.environ.get("FSM_NOROUNDS") else 0), ("fullclose", 1 if rng.chance(w_full, 12) and not os.environ.get("FSM_NOROUNDS") else 0)])
+                           ("edgeround", 1 if rng.chance(w_edge, 16) else 0), ("fullclose", 1 if rng.chance(w_full, 16) else 0)])
         ok = True
         if op == "solidround":
             ok = do_solid_round()
